@@ -34,6 +34,7 @@ def match(known: List[dict], pid: str, failure: dict) -> Optional[dict]:
 
 
 def match_obligation(known: List[dict], pid: str, oid: str) -> bool:
+    oid = oid.split("#helpers-inlined")[0]
     for k in open_for(known, pid):
         if oid in k.get("obligations", []):
             return True
